@@ -65,17 +65,22 @@ def run(tier):
                 key += ":ok" if e.get("ok") else ":err"
         rep.mismatch(key, {"scenario": r["scenario"], "line_in_scenario": r["line_in_scenario"], "first_unexplained": what,
                            "trace": [json.loads(x) for x in scs[r["scenario"]]][:300]})
-    rep.cov["traces_validated_against_impl"] = len(scs)
-    rep.cov["evaluations"] = len(scs)
+    rep.cov["traces_validated_against_impl"] = rep.cov.get("traces_validated_against_impl", 0) + len(scs)
+    rep.cov["evaluations"] = rep.cov.get("evaluations", 0) + len(scs)
     nt = set()
     for sc in scs:
         txt = "".join(sc[1:])
         if '"SendUnsub"' in txt or '"PeerClose"' in txt or '"ok":false' in txt or '"HReject"' in txt:
             nt.add(txt)
-    rep.cov["distinct_nontrivial"] = len(nt)
+    rep.cov["distinct_nontrivial"] = rep.cov.get("distinct_nontrivial", 0) + len(nt)
     rep.cov["samples"] = [{"trace": [json.loads(x) for x in scs[min(2, len(scs) - 1)]][:80]}]
     rep.cov["scenarios_accepted"] = ok
-    rep.cov["rule"] = ("design: every interleaving of two scripted handlers (accept / reject / drop, <= 2 sends, return with or without a closing "
+    rep.cov["rule"] = ("serialised replay: every sequence of <= 5 driver calls (subscribe, accept, reject, drop-pending, clone / drop a sink, send "
+                       "through send / send_timeout / try_send, unsubscribe, handler return with or without a closing value, connection close) "
+                       "on 2 connections, caps 1..2, each taken when the writers have drained, replayed on the real server; every step's output "
+                       "and, at the end, the exact sequence of frames every peer has received (response / error / notification n / close / "
+                       "unsubscribe answer) must equal the spec's. "
+                       "design: every interleaving of two scripted handlers (accept / reject / drop, <= 2 sends, return with or without a closing "
                        "value), the writer, unsubscribe and connection close on one connection with queue capacity 2, checking response-before-"
                        "notifications, per-subscription FIFO, own connection, close-at-most-once-and-only-if-accepted, no notifications unless "
                        "accepted; conformance: seeded concurrent scenarios on a 4-thread runtime (3 subscriptions on 2 connections, handlers with "
@@ -91,6 +96,10 @@ def run(tier):
 
 def replay(path):
     d = json.load(open(path))
+    if d.get("key", "").startswith("wire:") or any("case" in c for c in d["cases"]):
+        # a case of the serialised replay: re-run it on the real server
+        from checks import g
+        return g.replay_one("c06", path)
     bad = 0
     for c in d["cases"]:
         lines = [json.dumps(e, separators=(",", ":")) + "\n" for e in c["trace"]]
